@@ -36,11 +36,14 @@ static const char* qname(glm::qualifier q) {
 template <glm::qualifier Q> struct Al { static const bool v = glm::detail::is_aligned<Q>::value; };
 
 // distinct tags: component k of a case gets base + k (bool: alternating pattern chosen by the case)
-template <class T> static T tag(pbt::Ctx& c, int k, uint64_t base) { (void)c; return (T)(base + (uint64_t)k); }
-template <> bool tag<bool>(pbt::Ctx&, int k, uint64_t base) { return ((base >> (k & 15)) & 1) != 0; }
-template <> float tag<float>(pbt::Ctx&, int k, uint64_t base) { return (float)((base & 0xffff) + (uint64_t)k) + 0.25f; }
-template <> double tag<double>(pbt::Ctx&, int k, uint64_t base) { return (double)((base & 0xffffffff) + (uint64_t)k) + 0.125; }
-template <class T> static uint64_t draw_base(pbt::Ctx& c) { return sizeof(T) == 1 ? c.draw(100) : c.draw(1ULL << 14); }
+template <class T> static T tag(pbt::Ctx& c, int k, uint64_t base) { (void)c; if (base == (1ULL << 62)) return (T)0; return (T)(base + (uint64_t)k); }
+template <> bool tag<bool>(pbt::Ctx&, int k, uint64_t base) { if (base == (1ULL << 62)) return false; return ((base >> (k & 15)) & 1) != 0; }
+template <> float tag<float>(pbt::Ctx&, int k, uint64_t base) { if (base == (1ULL << 62)) return (k & 1) ? -0.0f : 0.0f; return (float)((base & 0xffff) + (uint64_t)k) + 0.25f; }
+template <> double tag<double>(pbt::Ctx&, int k, uint64_t base) { if (base == (1ULL << 62)) return (k & 1) ? -0.0 : 0.0; return (double)((base & 0xffffffff) + (uint64_t)k) + 0.125; }
+// one filling in eight is the all-zero object (floating-point components alternate +0 / -0): value-dependent special cases in the
+// builders (a "null" quaternion, an all-zero column) must not change what is stored
+static const uint64_t ZERO_BASE = 1ULL << 62;
+template <class T> static uint64_t draw_base(pbt::Ctx& c) { if (c.draw(8) == 0) { c.cls("all-zero filling"); return ZERO_BASE; } return sizeof(T) == 1 ? c.draw(100) : c.draw(1ULL << 14); }
 
 #define FAIL(fact, ...) c.failk(name + "/" fact, __VA_ARGS__)
 
